@@ -6,24 +6,13 @@ From hagall Require Import Model Conc.
 From hagall.proofs Require Import BaseLemmas Inv.
 From Coq Require Import Lia.
 
-(* ---------- decidability of the property (used by the refutations, which are computations) ---------- *)
-Global Instance pc_eq_dec : EqDecision pc.
-Proof. solve_decision. Defined.
-Global Instance idle_dec T : Decision (idle T).
-Proof. unfold idle. apply _. Defined.
-Global Instance reg_entry_ok_dec st id inc : Decision (reg_entry_ok st id inc).
-Proof. unfold reg_entry_ok. destruct (k_heap st !! inc); apply _. Defined.
-Global Instance obj_ok_dec st inc R : Decision (obj_ok st inc R).
-Proof. unfold obj_ok. apply _. Defined.
-Global Instance member_ok_dec st T : Decision (member_ok st T).
+(* ---------- completion is computable ---------- *)
+Lemma all_idle_complete st : all_idle st = true → complete st.
 Proof.
-  unfold member_ok. destruct (t_cur T) as [[[sid inc] p]|]; [|apply _].
-  destruct (k_heap st !! inc); apply _.
-Defined.
-Global Instance registry_ok_dec st : Decision (registry_ok st).
-Proof. unfold registry_ok. apply _. Defined.
-Global Instance complete_dec st : Decision (complete st).
-Proof. unfold complete. apply _. Defined.
+  unfold all_idle, complete. intros H tid T HT. apply elem_of_map_to_list in HT.
+  rewrite forallb_forall in H. specialize (H (tid, T)). simpl in H. unfold idle.
+  apply elem_of_list_In in HT. specialize (H HT). by destruct (t_pc T).
+Qed.
 
 (* ---------- the code as it is: witnesses ---------- *)
 (* join of an existing session against the last departure: thread 1 creates session 1 (5 critical sections);
@@ -39,19 +28,28 @@ Definition w_double : list (N * N) := plain [1;1;1;1;1; 2;2;2; 1;2; 1;2; 1; 2].
 Definition w_reissue_progs : list (list cop) := [[KCreate; KLeave]; [KJoin 1; KLeave]; [KCreate]].
 Definition w_reissue : list (N * N) := plain [1;1;1;1;1; 2;2;2; 1;2; 1;2; 1; 3] ++ [(3, 1)] ++ plain [3; 2; 3;3].
 
-Lemma refute (st : cstate) : bool_decide (complete st) = true → bool_decide (registry_ok st) = false →
-  complete st ∧ ¬ registry_ok st.
-Proof. intros H1 H2. split; [by apply bool_decide_eq_true in H1|by apply bool_decide_eq_false in H2]. Qed.
+(* a thread whose success answer names a session that its id does not resolve to *)
+Lemma refute_member st tid T sid inc p :
+  k_thr st !! tid = Some T → t_cur T = Some (sid, inc, p) → k_reg st !! sid ≠ Some inc → ¬ registry_ok st.
+Proof.
+  intros HT Hc Hr (_&_&Hm&_). specialize (Hm tid T HT). unfold member_ok in Hm. rewrite Hc in Hm. by destruct Hm.
+Qed.
 
 Lemma conc_refuted_orphan_join :
   ∃ progs σ, let st := sched_run false (cinit progs) σ in complete st ∧ ¬ registry_ok st.
-Proof. exists w_orphan_progs, w_orphan. apply refute; vm_compute; reflexivity. Qed.
+Proof.
+  exists w_orphan_progs, w_orphan. cbn zeta. split; [apply all_idle_complete; vm_compute; reflexivity|].
+  apply (refute_member _ 2 (mk_thread PIdle [] (Some (1, 1, 2)) [AOk 1 1 2]) 1 1 2); [vm_compute; reflexivity|reflexivity|].
+  vm_compute. discriminate.
+Qed.
 Lemma conc_refuted_double_remove :
   ∃ progs σ, let st := sched_run false (cinit progs) σ in complete st ∧ ¬ registry_ok st ∧ k_gauge st = (-1)%Z ∧ size (k_reg st) = 0%nat.
 Proof.
   exists w_double_progs, w_double. cbn zeta.
-  destruct (refute (sched_run false (cinit w_double_progs) w_double)) as [H1 H2]; [vm_compute; reflexivity..|].
-  split; [exact H1|]. split; [exact H2|]. split; vm_compute; reflexivity.
+  assert (Hg : k_gauge (sched_run false (cinit w_double_progs) w_double) = (-1)%Z) by (vm_compute; reflexivity).
+  assert (Hs : size (k_reg (sched_run false (cinit w_double_progs) w_double)) = 0%nat) by (vm_compute; reflexivity).
+  split; [apply all_idle_complete; vm_compute; reflexivity|]. split; [|exact (conj Hg Hs)].
+  intros (_&_&_&Hgg). rewrite Hg, Hs in Hgg. discriminate.
 Qed.
 (* the session-id clause of C10 under this race: id 1 is recyclable while a session answered under id 1 has a member *)
 Lemma conc_refuted_reissue :
@@ -59,20 +57,21 @@ Lemma conc_refuted_reissue :
     complete st ∧ ¬ registry_ok st ∧ k_thr st !! tid = Some T ∧ t_cur T = Some (1, 2, 1) ∧
     1 ∈ g_reuse (k_ids st) ∧ k_reg st !! 1 = None.
 Proof.
-  exists w_reissue_progs, w_reissue, 3.
-  destruct (refute (sched_run false (cinit w_reissue_progs) w_reissue)) as [H1 H2]; [vm_compute; reflexivity..|].
+  exists w_reissue_progs, w_reissue, 3, (mk_thread PIdle [] (Some (1, 2, 1)) [AOk 1 2 1]). cbn zeta.
+  assert (H4 : k_thr (sched_run false (cinit w_reissue_progs) w_reissue) !! 3 =
+               Some (mk_thread PIdle [] (Some (1, 2, 1)) [AOk 1 2 1])) by (vm_compute; reflexivity).
+  assert (H5 : k_reg (sched_run false (cinit w_reissue_progs) w_reissue) !! 1 = None) by (vm_compute; reflexivity).
   assert (H3 : bool_decide (1 ∈ g_reuse (k_ids (sched_run false (cinit w_reissue_progs) w_reissue))) = true)
     by (vm_compute; reflexivity).
   apply bool_decide_eq_true in H3.
-  assert (H5 : k_reg (sched_run false (cinit w_reissue_progs) w_reissue) !! 1 = None) by (vm_compute; reflexivity).
-  assert (H4 : k_thr (sched_run false (cinit w_reissue_progs) w_reissue) !! 3 =
-               Some (mk_thread PIdle [] (Some (1, 2, 1)) [AOk 1 2 1])) by (vm_compute; reflexivity).
-  exists (mk_thread PIdle [] (Some (1, 2, 1)) [AOk 1 2 1]). cbn zeta.
-  exact (conj H1 (conj H2 (conj H4 (conj eq_refl (conj H3 H5))))).
+  split; [apply all_idle_complete; vm_compute; reflexivity|].
+  split; [apply (refute_member _ 3 _ 1 2 1 H4 eq_refl); rewrite H5; discriminate|].
+  split; [exact H4|]. split; [reflexivity|]. split; [exact H3|exact H5].
 Qed.
-(* the same schedules, shortened by the instructions that no longer exist, are harmless for the repaired programs *)
+(* the same schedules, shortened by the instructions that no longer exist, are harmless for the repaired programs:
+   instances of the general theorem proofs/ConcInv.v conc_registry_ok, kept as a sanity check of its hypotheses *)
 Example conc_fixed_on_witnesses :
-  registry_ok (sched_run true (cinit w_orphan_progs) (plain [1;1;1;1;1; 2; 1;1; 2;2])) ∧
-  registry_ok (sched_run true (cinit w_double_progs) (plain [1;1;1;1;1; 2;2;2; 1;2; 2])) ∧
-  registry_ok (sched_run true (cinit w_reissue_progs) (plain [1;1;1;1;1; 2;2;2; 1;2; 2; 3;3;3;3;3])).
-Proof. repeat split; apply bool_decide_eq_true; vm_compute; reflexivity. Qed.
+  all_idle (sched_run true (cinit w_orphan_progs) (plain [1;1;1;1;1; 2; 1;1; 2;2])) = true ∧
+  all_idle (sched_run true (cinit w_double_progs) (plain [1;1;1;1;1; 2;2;2; 1;2; 2])) = true ∧
+  all_idle (sched_run true (cinit w_reissue_progs) (plain [1;1;1;1;1; 2;2;2; 1;2; 2; 3;3;3;3;3])) = true.
+Proof. repeat split; vm_compute; reflexivity. Qed.
